@@ -1181,8 +1181,10 @@ def _oauth_signature(
     base_elems.append(_oauth_normalize_parameters(parameters))
     base_string = "&".join(_oauth_escape(e) for e in base_elems)
 
-    key_elems = [escape.utf8(consumer_token["secret"])]
-    key_elems.append(escape.utf8(token["secret"] if token else ""))
+    key_elems = [escape.utf8(urllib.parse.quote(consumer_token["secret"], safe="~"))]
+    key_elems.append(
+        escape.utf8(urllib.parse.quote(token["secret"], safe="~") if token else "")
+    )
     key = b"&".join(key_elems)
 
     hash = hmac.new(key, escape.utf8(base_string), hashlib.sha1)
